@@ -87,7 +87,7 @@ theorem request_roundtrip_partial (s : Spec) (wf : WF s) :
 
 /-- … and the caller's own header fields are among those recovered, value untouched (a Content-Type is replaced only when
 a JSON / form body dictates it) -/
-theorem spec_headers_recovered (s : Spec) (wf : WF s) (x : Bytes × Bytes) (hx : x ∈ s.headers)
+theorem spec_headers_recovered (s : Spec) (x : Bytes × Bytes) (hx : x ∈ s.headers)
     (hct : (lower x.1 == lit "content-type") = false ∨ isGet s = true ∨ (s.bkind != 1 && s.bkind != 2) = true) :
     (lower x.1, x.2) ∈ (view s).headers := by
   have := spec_header_on_wire s x hx hct
